@@ -42,7 +42,7 @@ PROPS = {
         "engines": [storm()],
         "rule": "each evaluation is one bank touched by an instruction that must accrue first; post share values are compared with an exact reference accrual from the pre-state (curve, fees, utilisation, dt); informative = dt>0 and non-zero utilisation; distinct = (kind, dt class, utilisation decile)",
         "assumptions": COMMON_ASSUMPTIONS + ["a deposit that deposits nothing (amount 0 / no remaining capacity) transacts nothing and is not required to accrue"],
-        "floors": {"quick": {"C06.informative_accruals_at_zero_base_rate": 50, "C06.informative_accruals/AccrueInterest": 30, "C06.informative_accruals/Deposit": 30, "C06.informative_accruals/Withdraw": 10, "C06.informative_accruals/Borrow": 10, "C06.informative_accruals/Repay": 10}},
+        "floors": {"quick": {"storm.receivership_brackets_committed": 4, "C06.informative_accruals_at_zero_base_rate": 50, "C06.informative_accruals/AccrueInterest": 30, "C06.informative_accruals/Deposit": 30, "C06.informative_accruals/Withdraw": 10, "C06.informative_accruals/Borrow": 10, "C06.informative_accruals/Repay": 10}},
     },
     "C16": {
         "engines": [storm(sq=12, st=12), storm("venue", arg="C16:venue", sq=4, st=4)],
@@ -66,13 +66,13 @@ PROPS = {
         "engines": [storm("scen", sq=12, st=12), storm("venue", arg="C05:venue", sq=4, st=4)],
         "rule": "each evaluation is one accepted classic liquidation (committed or simulated at the bisected acceptance boundary) judged on pre/post reference maintenance health, flips, liquidator health and the 95/97.5/2.5 percent rule in exact rationals; the collateral price is first bisected to the exact integer price at which the account turns liquidatable; the venue engine liquidates collateral held in pass-through banks; distinct = (debt decimals, collateral decimals, #assets, #liabs, e-mode)",
         "assumptions": COMMON_ASSUMPTIONS,
-        "floors": {"quick": {"C05.liquidations_accepted": 100, "scen.liquidation_boundary_found": 5, "scen.liquidatable_price_boundary_found": 20}},
+        "floors": {"quick": {"scen.flat_liquidation_rounds": 20, "C05.program_health_before_after_pairs": 100, "C05.liquidations_accepted": 100, "scen.liquidation_boundary_found": 5, "scen.liquidatable_price_boundary_found": 20}},
     },
     "C07": {
         "engines": [storm("scen")],
         "rule": "each evaluation is one accepted bankruptcy judged on equity (unweighted, isolated-tier deposits at full value), signer, insurance-first, pro-rata socialisation, kill state, account disabling; distinct = (regime, killed, permissionless, decimals, transfer fee)",
         "assumptions": COMMON_ASSUMPTIONS,
-        "floors": {"quick": {"scen.wipeout_debt_equal_to_deposits": 5, "pulse.health_signs_compared/equity": 30, "C07.bankruptcies_accepted": 40, "C07.regime/partial": 3, "C07.regime/fully_insured": 3, "scen.bankruptcy_price_boundary_found": 15}},
+        "floors": {"quick": {"C07.banks_left_with_worthless_deposits": 5, "scen.wipeout_debt_equal_to_deposits": 5, "pulse.health_signs_compared/equity": 30, "C07.bankruptcies_accepted": 40, "C07.regime/partial": 3, "C07.regime/fully_insured": 3, "scen.bankruptcy_price_boundary_found": 15}},
     },
     "C10": {
         "engines": [storm("scen")],
@@ -115,7 +115,7 @@ PROPS = {
         "engines": [storm("matrix")],
         "rule": "even shards: matrix over twin groups - every listed instruction x every signer identity (authority, stranger, 7 group roles, fee admin, other group's admin, no signature) x every single substitution of a bound account (foreign group twin, sibling bank's vault/authority, clone owned by another program, wrong sysvar / token program, for pass-through banks the venue reserve / obligation / program and the reserve or price account that values the collateral in the risk accounts), plus coherent substitutions (a foreign group's bank presented with all of its own vaults and oracle accounts); a cell counts only when its positive control succeeded; odd shards: attribution monitor over the administrative storm (every change of an account's balances / every role-signed instruction must be attributable to an entitled signer); distinct = (cell kind, instruction, identity or substitution, outcome)",
         "assumptions": COMMON_ASSUMPTIONS + ["the table of entitled signers and bound slots is written from the statement and the instruction doc comments (DESIGN App. A)"],
-        "floors": {"quick": {"C08.matrix_foreign_group_with_its_settings_cells": 50, "C08.empty_bracket_committed": 50, "C08.matrix_foreign_group_with_its_role_holder_cells": 1000, "C08.matrix_controls_ok": 300, "C08.matrix_signer_cells": 3000, "C08.matrix_substitution_cells": 1000, "admin.role_rotations": 20, "fidelity.group_configure_requests_compared": 100}},
+        "floors": {"quick": {"impostor.probes_rejected": 5000, "C08.admin_instructions_accepted/AddBank": 100, "C08.admin_instructions_accepted/AddBankWithSeed": 50, "C08.admin_instructions_accepted/CloseBank": 30, "C08.admin_instructions_accepted/StartDeleverage": 30, "admin.bank_creations_rejected": 50, "C08.matrix_foreign_group_with_its_settings_cells": 50, "C08.empty_bracket_committed": 50, "C08.matrix_foreign_group_with_its_role_holder_cells": 1000, "C08.matrix_controls_ok": 300, "C08.matrix_signer_cells": 3000, "C08.matrix_substitution_cells": 1000, "admin.role_rotations": 20, "fidelity.group_configure_requests_compared": 100}},
         "exhaustive_note": "exhaustive over the listed cases x identities x substitutions per world",
     },
     "C12": {
